@@ -38,6 +38,15 @@ R03b  ``Sequence.match`` does not emit a prefix of its own metas when it gives u
       results of ``self._elements``; CHILD = ``<element match>.insert_segments``).  The
       return after the loop must add what is left in the buffer (that is what makes "metas
       always contribute" true for R03a).
+
+Spellings that are the same fact (each has a QUIET self-test variant): inserts accumulated with
+``x += e``, ``x = x + e`` or through one more local (``sa/idioms.contributions``: every leaf is
+attributed to the statement that adds it); the result built in a local and returned; keyword or
+positional ``MatchResult`` arguments; the element loop over ``self._elements`` directly or through a
+local; the meta tests as ``elif``/``if``/nested ifs or in a boolean local; an engine insert
+``(pos, Indent)`` written in the tuple or named first; R03c: the balance as ``sum(..)`` or as an
+accumulating loop, the zero test in the ``if`` or hoisted into a local, ``!= 0``/``== 0``/truthiness,
+either operand order.
 """
 
 from __future__ import annotations
@@ -47,10 +56,11 @@ from typing import Dict, List, Optional, Set, Tuple
 
 from ..cfg import cfg_of, origins
 from ..grammar import load_grammar
+from ..idioms import atoms_at, conditions_at, contributions
 from ..grammar_analyses import (
     BOTTOM, UNBOUNDED, ZERO, Balance, Kinds, assignments, balanced, show_assignment, totals, vshow,
 )
-from ..index import AnalysisError, FuncNode, call_name, const, kwarg, last_attr, norm, short, walk_local
+from ..index import AnalysisError, FuncNode, call_name, const, enclosing_function, kwarg, last_attr, norm, short, walk_local
 
 SELFTEST_NEEDS_FILES = True
 
@@ -111,6 +121,31 @@ def _resolve_indent(repo, ic, node) -> Optional[Tuple[str, int]]:
     return None
 
 
+def _insert_group(t: ast.Tuple) -> ast.AST:
+    """The display that collects the insert ``(position, <Indent class>)``: the enclosing tuple /
+    list, also when the insert is named first (``a = (pos, Indent)`` ... ``(a, b)``: the one
+    display in which that name, holding only this tuple, is an element)."""
+    outer = getattr(t, "_parent", None)
+    if isinstance(outer, (ast.Tuple, ast.List)):
+        return outer
+    tgt = None
+    if isinstance(outer, ast.Assign) and outer.value is t and len(outer.targets) == 1 and isinstance(outer.targets[0], ast.Name):
+        tgt = outer.targets[0].id
+    elif isinstance(outer, ast.AnnAssign) and outer.value is t and isinstance(outer.target, ast.Name):
+        tgt = outer.target.id
+    func = enclosing_function(t) if tgt else None
+    if func is None or not isinstance(func, FuncNode):
+        return t
+    cfg = cfg_of(func)
+    outs: List[ast.AST] = []
+    for u in walk_local(func):
+        if isinstance(u, ast.Name) and u.id == tgt and isinstance(u.ctx, ast.Load) and isinstance(getattr(u, "_parent", None), (ast.Tuple, ast.List)):
+            os_ = origins(cfg, u, cfg.stmt_of(u))
+            if len(os_) == 1 and os_[0].kind == "expr" and not os_[0].path and os_[0].expr is t and not any(u._parent is x for x in outs):
+                outs.append(u._parent)
+    return outs[0] if len(outs) == 1 else t
+
+
 def engine_pairs(chk, repo, ic) -> None:
     """Every literal insert tuple naming Indent classes is a balanced pair."""
     groups: Dict[int, Tuple[ast.AST, List[Tuple[str, int]]]] = {}
@@ -121,9 +156,7 @@ def engine_pairs(chk, repo, ic) -> None:
             hit = _resolve_indent(repo, ic, t.elts[1])
             if hit is None:
                 continue
-            outer = getattr(t, "_parent", None)
-            if not isinstance(outer, (ast.Tuple, ast.List)):
-                outer = t
+            outer = _insert_group(t)
             groups.setdefault(id(outer), (outer, []))[1].append(hit)
     for outer, hits in groups.values():
         chk.count("R03a.engine_insert_tuples")
@@ -525,11 +558,15 @@ def r03b(chk, repo, g, kinds: Kinds, forward: bool) -> None:
     f = repo.fn(SEQ, "Sequence.match")
     cfg = cfg_of(f)
     m = f._module
-    loops = [
-        n for n in walk_local(f)
-        if isinstance(n, ast.For) and isinstance(n.iter, ast.Attribute) and n.iter.attr == "_elements"
-        and isinstance(n.iter.value, ast.Name) and n.iter.value.id == "self" and isinstance(n.target, ast.Name)
-    ]
+    def self_elements(e, at) -> bool:
+        if isinstance(e, ast.Attribute):
+            return e.attr == "_elements" and isinstance(e.value, ast.Name) and e.value.id == "self"
+        if isinstance(e, ast.Name):
+            os_ = origins(cfg, e, at)
+            return bool(os_) and all(o.kind == "expr" and not o.path and isinstance(o.expr, ast.Attribute) and self_elements(o.expr, o.stmt) for o in os_)
+        return False
+
+    loops = [n for n in walk_local(f) if isinstance(n, ast.For) and isinstance(n.target, ast.Name) and self_elements(n.iter, n)]
     if len(loops) != 1:
         raise AnalysisError(f"Sequence.match: expected one loop over self._elements, found {len(loops)}")
     loop = loops[0]
@@ -551,7 +588,7 @@ def r03b(chk, repo, g, kinds: Kinds, forward: bool) -> None:
     for c in ast.walk(loop):
         if isinstance(c, ast.Call) and last_attr(c) == "append" and isinstance(c.func, ast.Attribute) and isinstance(c.func.value, ast.Name):
             st = cfg.stmt_of(c)
-            if any(pol and meta_test(e) for e, pol in cfg.conditions(st)):
+            if any(pol and meta_test(e) for e, pol in conditions_at(cfg, st)):
                 buffers.add(c.func.value.id)
     if not buffers:
         raise AnalysisError("Sequence.match: the buffer that collects the sequence's own metas / Conditional results was not recognised")
@@ -569,38 +606,73 @@ def r03b(chk, repo, g, kinds: Kinds, forward: bool) -> None:
             return "PARAM"
         return "OTHER"
 
-    def result_calls(ret: ast.Return) -> List[ast.Call]:
-        """Outermost ``MatchResult(..)`` constructions of the returned expression (nested ones
-        are child matches and carry their own inserts)."""
+    def result_sites(ret: ast.Return) -> List[Tuple[ast.AST, object]]:
+        """(expression, statement it is evaluated at) for the returned expression and, when the
+        result is built in a local first (``result = MatchResult(..); return result``), for the
+        expressions that local may hold."""
+        sites: List[Tuple[ast.AST, object]] = []
+        seen: Set[int] = set()
+
+        def add(expr, at) -> None:
+            if expr is None or id(expr) in seen:
+                return
+            seen.add(id(expr))
+            sites.append((expr, at))
+
+            def names(node, inside: bool) -> None:
+                # local names outside any MatchResult(..) construction: the result itself
+                is_mr = isinstance(node, ast.Call) and call_name(node) == "MatchResult"
+                if isinstance(node, ast.Name) and isinstance(node.ctx, ast.Load) and not inside:
+                    for o in origins(cfg, node, at):
+                        if o.kind == "expr" and isinstance(o.expr, ast.AST) and any(
+                            isinstance(c, ast.Call) and (call_name(c) == "MatchResult" or last_attr(c) in ("wrap", "append")) for c in ast.walk(o.expr)
+                        ):
+                            add(o.expr, o.stmt)
+                for ch in ast.iter_child_nodes(node):
+                    if isinstance(node, ast.Call) and ch is node.func:
+                        # receiver of a method call (`result.wrap(..)`) is still the result
+                        names(ch, inside)
+                    else:
+                        names(ch, inside or is_mr or isinstance(node, ast.Call))
+
+            names(expr, False)
+
+        add(ret.value, ret)
+        return sites
+
+    def result_calls(expr: ast.AST) -> List[ast.Call]:
+        """Outermost ``MatchResult(..)`` constructions of an expression (nested ones are child
+        matches and carry their own inserts)."""
         out: List[ast.Call] = []
 
         def visit(node, inside: bool) -> None:
+            is_mr = isinstance(node, ast.Call) and call_name(node) == "MatchResult"
+            if is_mr and not inside:
+                out.append(node)
             for ch in ast.iter_child_nodes(node):
-                is_mr = isinstance(ch, ast.Call) and call_name(ch) == "MatchResult"
-                if is_mr and not inside:
-                    out.append(ch)
                 visit(ch, inside or is_mr)
 
-        visit(ret, False)
+        visit(expr, False)
         return out
 
     def insert_labels(ret: ast.Return) -> List[Tuple[str, object]]:
         labs = []
-        for c in result_calls(ret):
-            k = kwarg(c, "insert_segments")
-            if k is None and len(c.args) >= 4:
-                k = c.args[3]
-            if k is None:
-                continue
-            for o in origins(cfg, k, ret):
-                labs.append((label(o), o))
-        # inserts added by .wrap(.., insert_segments=..)
-        for c in ast.walk(ret.value) if ret.value is not None else ():
-            if isinstance(c, ast.Call) and last_attr(c) in ("wrap", "append"):
+        for expr, at in result_sites(ret):
+            for c in result_calls(expr):
                 k = kwarg(c, "insert_segments")
-                if k is not None:
-                    for o in origins(cfg, k, ret):
-                        labs.append((label(o), o))
+                if k is None and len(c.args) >= 4:
+                    k = c.args[3]
+                if k is None:
+                    continue
+                for o in contributions(cfg, k, at):
+                    labs.append((label(o), o))
+            # inserts added by .wrap(.., insert_segments=..)
+            for c in ast.walk(expr):
+                if isinstance(c, ast.Call) and last_attr(c) in ("wrap", "append"):
+                    k = kwarg(c, "insert_segments")
+                    if k is not None:
+                        for o in contributions(cfg, k, at):
+                            labs.append((label(o), o))
         return labs
 
     rets = [n for n in walk_local(f) if isinstance(n, ast.Return)]
@@ -698,46 +770,67 @@ def r03c(chk, repo) -> None:
     lf = repo.fn(LINTER_, "Linter._lex_templated_file")
     cfg = cfg_of(lf)
 
+    def mentions_indent_val(e) -> bool:
+        return any(isinstance(n, ast.Constant) and n.value == "indent_val" for n in ast.walk(e)) or any(
+            isinstance(n, ast.Attribute) and n.attr == "indent_val" for n in ast.walk(e)
+        )
+
     def is_balance(e, at, depth=0) -> bool:
+        """``sum(<.. indent_val ..>)``, a local holding it, or the same sum spelled as a loop
+        (``b = 0`` ... ``b += <.. indent_val ..>``)."""
         if isinstance(e, ast.Call) and call_name(e) == "sum" and e.args:
-            return any(isinstance(n, ast.Constant) and n.value == "indent_val" for n in ast.walk(e.args[0])) or any(
-                isinstance(n, ast.Attribute) and n.attr == "indent_val" for n in ast.walk(e.args[0])
-            )
+            return mentions_indent_val(e.args[0])
         if isinstance(e, ast.Name) and depth < 4:
             os_ = origins(cfg, e, at)
-            return bool(os_) and all(o.kind == "expr" and not o.path and is_balance(o.expr, o.stmt, depth + 1) for o in os_)
+            plain = [o for o in os_ if o.kind == "expr" and not o.path]
+            augs = [o for o in os_ if o.kind == "aug" and not o.path]
+            if not os_ or len(plain) + len(augs) != len(os_):
+                return False
+            if augs:
+                return (
+                    all(isinstance(o.expr, ast.Constant) and o.expr.value == 0 and o.expr.value is not False for o in plain)
+                    and all(isinstance(o.stmt, ast.AugAssign) and isinstance(o.stmt.op, ast.Add) and mentions_indent_val(o.expr) for o in augs)
+                )
+            return all(is_balance(o.expr, o.stmt, depth + 1) for o in plain)
         return False
 
-    tests = []  # (If stmt, atom expr, complete?, asserts non-zero under pol True?)
+    # every comparison of the balance anywhere in the function (in a test or hoisted into a
+    # boolean local), and every truthiness use of it as (a conjunct/disjunct of) a test
+    tests = []  # (expr, complete?)
+    for e in walk_local(lf):
+        if isinstance(e, ast.Compare) and len(e.ops) == 1:
+            at = cfg.stmt_of(e) or e
+            lb, rb = is_balance(e.left, at), is_balance(e.comparators[0], at)
+            if lb or rb:
+                other = e.comparators[0] if lb else e.left
+                tests.append((e, isinstance(e.ops[0], (ast.Eq, ast.NotEq)) and const(other) == 0 and const(other) is not False))
+
+    def truth_atoms(test, at):
+        return [x for x, _ in atoms_at(cfg, test, True, at) + atoms_at(cfg, test, False, at)]
+
     for n in walk_local(lf):
-        if not isinstance(n, (ast.If, ast.While, ast.IfExp, ast.Assert)):
-            continue
-        test = n.test
-        for e in ast.walk(test):
-            if isinstance(e, ast.Compare) and len(e.ops) == 1 and (is_balance(e.left, cfg.stmt_of(n) or n) or is_balance(e.comparators[0], cfg.stmt_of(n) or n)):
-                other = e.comparators[0] if is_balance(e.left, cfg.stmt_of(n) or n) else e.left
-                complete = isinstance(e.ops[0], (ast.Eq, ast.NotEq)) and const(other) == 0
-                tests.append((n, e, complete))
-        if isinstance(test, ast.Name) and is_balance(test, cfg.stmt_of(n) or n):
-            tests.append((n, test, True))
-        if isinstance(test, ast.UnaryOp) and isinstance(test.op, ast.Not) and isinstance(test.operand, ast.Name) and is_balance(test.operand, cfg.stmt_of(n) or n):
-            tests.append((n, test, True))
+        if isinstance(n, (ast.If, ast.While, ast.IfExp, ast.Assert)):
+            at = cfg.stmt_of(n) or n
+            for x in truth_atoms(n.test, at):
+                if is_balance(x, at) and not any(x is t for t, _ in tests):
+                    tests.append((x, True))
     chk.count("R03c.balance_tests", len(tests))
     if not tests:
         chk.fail("R03c", lf, "Linter._lex_templated_file no longer tests the sum of the lexed indent metas: unbalanced template indents reach the tree",
                  detail="lexed indent balance is tested")
         return
-    for n, e, complete in tests:
+    for e, complete in tests:
         chk.require(
             complete, "R03c", e,
             f"the lexed indent balance is tested one-sidedly (`{short(e, 60)}`): a balance of the other sign passes the gate and the template indents "
             "leave the tree unbalanced (e.g. a {% call %} block of a macro that renders text yields -1)",
             detail="balance gate is a complete zero test",
         )
-    # one of the tests switches the template indents off: an assignment of a false constant in its body to a name the filter tests
+    # one of the tests switches the template indents off: an `if` whose test is (or, through a boolean
+    # local, holds) a balance test assigns a false constant in one of its branches
     switches = []
-    for n, e, complete in tests:
-        if isinstance(n, ast.If):
+    for n in walk_local(lf):
+        if isinstance(n, ast.If) and any(x is t for x in truth_atoms(n.test, n) for t, _ in tests):
             for st in n.body + n.orelse:
                 for a in [st] + list(walk_local(st)):
                     if isinstance(a, ast.Assign) and isinstance(a.value, ast.Constant) and a.value.value is False and all(isinstance(t, ast.Name) for t in a.targets):
@@ -756,18 +849,162 @@ SPARK = "src/sqlfluff/dialects/dialect_sparksql.py"
 TSQL = "src/sqlfluff/dialects/dialect_tsql.py"
 PG = "src/sqlfluff/dialects/dialect_postgres.py"
 
+LINTER = "src/sqlfluff/core/linter/linter.py"
+_GATE_OLD = (
+    "            indent_balance = sum(getattr(elem, \"indent_val\", 0) for elem in segments)\n"
+    "            if indent_balance != 0:  # pragma: no cover\n"
+)
+_TRAIL_OLD = (
+    "        # If we get to here, we've matched all of the elements (or skipped them).\n"
+    "        insert_segments += tuple((matched_idx, meta) for meta in meta_buffer)\n"
+)
+_FINAL_OLD = (
+    "        return MatchResult(\n            matched_slice=slice(start_idx, matched_idx),\n            insert_segments=insert_segments,\n"
+    "            child_matches=child_matches,\n        )\n\n\nclass Bracketed(Sequence):"
+)
+
 VARIANTS = [
+    # behaviour-preserving refactors: must stay quiet
     Variant(
-        "balance-gate-one-sided", "src/sqlfluff/core/linter/linter.py",
-        "            if indent_balance != 0:  # pragma: no cover\n",
-        "            if indent_balance > 0:  # pragma: no cover\n",
-        "R03c", "_lex_templated_file", "seeded C03-2: a stray Dedent from {% endcall %} passes the gate",
-    ),
-    Variant(
-        "quiet-balance-gate-truthiness", "src/sqlfluff/core/linter/linter.py",
+        "quiet-balance-gate-truthiness", LINTER,
         "            if indent_balance != 0:  # pragma: no cover\n",
         "            if indent_balance:  # pragma: no cover\n",
         "QUIET", None, "non-zero test spelled as truthiness",
+    ),
+    Variant(
+        "quiet-balance-sum-as-loop", LINTER, _GATE_OLD,
+        "            indent_balance = 0\n            for elem in segments:\n                indent_balance += getattr(elem, \"indent_val\", 0)\n"
+        "            if indent_balance != 0:  # pragma: no cover\n",
+        "QUIET", None, "generator sum spelled as an accumulating loop",
+    ),
+    Variant(
+        "quiet-balance-test-in-a-local", LINTER, _GATE_OLD,
+        "            indent_balance = sum(getattr(elem, \"indent_val\", 0) for elem in segments)\n"
+        "            unbalanced = indent_balance != 0\n            if unbalanced:  # pragma: no cover\n",
+        "QUIET", None, "zero test hoisted into a boolean local",
+    ),
+    Variant(
+        "quiet-balance-inlined-reversed", LINTER, _GATE_OLD,
+        "            if 0 != sum(getattr(elem, \"indent_val\", 0) for elem in segments):  # pragma: no cover\n",
+        "QUIET", None, "balance local inlined into the test, operands swapped",
+    ),
+    Variant(
+        "quiet-balance-eq-zero-else", LINTER,
+        "            if indent_balance != 0:  # pragma: no cover\n"
+        "                linter_logger.debug(\n"
+        "                    \"Indent balance test failed for %r. Template indents will not be \"\n"
+        "                    \"linted for this file.\",\n"
+        "                    templated_file.fname,\n"
+        "                )\n"
+        "                # Don't enable the templating blocks.\n"
+        "                templating_blocks_indent = False\n",
+        "            if indent_balance == 0:\n"
+        "                pass\n"
+        "            else:\n"
+        "                linter_logger.debug(\n"
+        "                    \"Indent balance test failed for %r. Template indents will not be \"\n"
+        "                    \"linted for this file.\",\n"
+        "                    templated_file.fname,\n"
+        "                )\n"
+        "                templating_blocks_indent = False\n",
+        "QUIET", None, "!= 0 spelled as == 0 with the switch in the else branch",
+    ),
+    Variant(
+        "quiet-sequence-elements-through-local", SEQ,
+        "        # Iterate elements\n        for elem in self._elements:\n",
+        "        # Iterate elements\n        elements = self._elements\n        for elem in elements:\n",
+        "QUIET", None, "loop iterable passed through a local",
+    ),
+    Variant(
+        "quiet-sequence-trailing-metas-through-local", SEQ, _TRAIL_OLD,
+        "        trailing = tuple((matched_idx, meta) for meta in meta_buffer)\n        insert_segments += trailing\n",
+        "QUIET", None, "pending metas held in a local before they are added",
+    ),
+    Variant(
+        "quiet-sequence-trailing-metas-plain-concat", SEQ, _TRAIL_OLD,
+        "        insert_segments = insert_segments + tuple((matched_idx, meta) for meta in meta_buffer)\n",
+        "QUIET", None, "+= on an immutable tuple spelled as x = x + y",
+    ),
+    Variant(
+        "quiet-sequence-flush-through-local", SEQ,
+        "            insert_segments += _flush_metas(matched_idx, _idx, meta_buffer, segments)\n",
+        "            flushed = _flush_metas(matched_idx, _idx, meta_buffer, segments)\n            insert_segments += flushed\n",
+        "QUIET", None, "flushed metas held in a local before they are added",
+    ),
+    Variant(
+        "quiet-sequence-final-result-through-local", SEQ, _FINAL_OLD,
+        "        result = MatchResult(\n            matched_slice=slice(start_idx, matched_idx),\n            insert_segments=insert_segments,\n"
+        "            child_matches=child_matches,\n        )\n        return result\n\n\nclass Bracketed(Sequence):",
+        "QUIET", None, "completed match built in a local and returned",
+    ),
+    Variant(
+        "quiet-sequence-final-result-positional", SEQ, _FINAL_OLD,
+        "        return MatchResult(slice(start_idx, matched_idx), None, {}, insert_segments, child_matches)\n\n\nclass Bracketed(Sequence):",
+        "QUIET", None, "keyword arguments spelled positionally (defaults written out)",
+    ),
+    Variant(
+        "quiet-sequence-meta-tests-respelled", SEQ,
+        "                for _, submatch in _match.insert_segments:\n                    meta_buffer.append(submatch)\n                continue\n"
+        "            # If it's a raw meta, just add it to our list.\n            elif isinstance(elem, type) and issubclass(elem, Indent):\n"
+        "                meta_buffer.append(elem)\n                continue\n",
+        "                meta_buffer.extend(submatch for _, submatch in _match.insert_segments)\n                continue\n"
+        "            # If it's a raw meta, just add it to our list.\n            if isinstance(elem, type):\n                if issubclass(elem, Indent):\n"
+        "                    meta_buffer.append(elem)\n                    continue\n",
+        "QUIET", None, "append loop as extend, elif after continue as if, conjunction as nested ifs",
+    ),
+    Variant(
+        "quiet-bracketed-insert-pair-through-locals", SEQ,
+        "        result = MatchResult(\n            matched_slice=slice(idx, end_match.matched_slice.stop),\n            matched_class=None,\n            segment_kwargs={},\n"
+        "            insert_segments=(\n                (start_match.matched_slice.stop, Indent),\n                (end_match.matched_slice.start, Dedent),\n            ),\n",
+        "        open_meta = (start_match.matched_slice.stop, Indent)\n        close_meta = (end_match.matched_slice.start, Dedent)\n"
+        "        result = MatchResult(\n            matched_slice=slice(idx, end_match.matched_slice.stop),\n            matched_class=None,\n            segment_kwargs={},\n"
+        "            insert_segments=(open_meta, close_meta),\n",
+        "QUIET", None, "the two inserts of the bracket pair named before they are put in the tuple",
+    ),
+    # the same refactored spellings with the property broken: must still be reported
+    Variant(
+        "balance-sum-as-loop-one-sided", LINTER, _GATE_OLD,
+        "            indent_balance = 0\n            for elem in segments:\n                indent_balance += getattr(elem, \"indent_val\", 0)\n"
+        "            if indent_balance > 0:  # pragma: no cover\n",
+        "R03c", "_lex_templated_file", "loop spelling of the sum, one-sided gate",
+    ),
+    Variant(
+        "balance-test-in-a-local-one-sided", LINTER, _GATE_OLD,
+        "            indent_balance = sum(getattr(elem, \"indent_val\", 0) for elem in segments)\n"
+        "            unbalanced = indent_balance > 0\n            if unbalanced:  # pragma: no cover\n",
+        "R03c", "_lex_templated_file", "hoisted test, one-sided",
+    ),
+    Variant(
+        "sequence-trailing-metas-local-never-added", SEQ, _TRAIL_OLD,
+        "        trailing = tuple((matched_idx, meta) for meta in meta_buffer)\n",
+        "R03b", "completed return adds the remaining meta buffer", "pending metas computed into a local that is never added",
+    ),
+    Variant(
+        "sequence-final-result-local-without-inserts", SEQ, _FINAL_OLD,
+        "        result = MatchResult(\n            matched_slice=slice(start_idx, matched_idx),\n"
+        "            child_matches=child_matches,\n        )\n        return result\n\n\nclass Bracketed(Sequence):",
+        "R03b", "completed return", "completed match built in a local without the inserts",
+    ),
+    Variant(
+        "sequence-unstarted-return-through-local-carries-buffer", SEQ,
+        "                    return MatchResult(\n                        matched_slice=slice(start_idx, max_idx),\n                        matched_class=UnparsableSegment,\n                        segment_kwargs={\n                            \"expected\": (\n                                f\"{elem} to start sequence. Found {segments[_idx]}\"\n                            )\n                        },\n                    )\n",
+        "                    unstarted = MatchResult(\n                        matched_slice=slice(start_idx, max_idx),\n                        matched_class=UnparsableSegment,\n                        segment_kwargs={\n                            \"expected\": (\n                                f\"{elem} to start sequence. Found {segments[_idx]}\"\n                            )\n                        },\n                        insert_segments=tuple((start_idx, meta) for meta in meta_buffer),\n                    )\n                    return unstarted\n",
+        "R03b", "partial return (buffer)", "a partial return built in a local starts to carry the pending metas",
+    ),
+    Variant(
+        "bracketed-insert-pair-through-locals-one-dropped", SEQ,
+        "        result = MatchResult(\n            matched_slice=slice(idx, end_match.matched_slice.stop),\n            matched_class=None,\n            segment_kwargs={},\n"
+        "            insert_segments=(\n                (start_match.matched_slice.stop, Indent),\n                (end_match.matched_slice.start, Dedent),\n            ),\n",
+        "        open_meta = (start_match.matched_slice.stop, Indent)\n"
+        "        result = MatchResult(\n            matched_slice=slice(idx, end_match.matched_slice.stop),\n            matched_class=None,\n            segment_kwargs={},\n"
+        "            insert_segments=(open_meta,),\n",
+        "R03a", "Bracketed.match", "named insert, closing Dedent dropped",
+    ),
+    Variant(
+        "balance-gate-one-sided", LINTER,
+        "            if indent_balance != 0:  # pragma: no cover\n",
+        "            if indent_balance > 0:  # pragma: no cover\n",
+        "R03c", "_lex_templated_file", "seeded C03-2: a stray Dedent from {% endcall %} passes the gate",
     ),
     Variant(
         "ansi-where-dedent-deleted", ANSI,
